@@ -1,4 +1,5 @@
 import Ptn.C13.Model
+import Ptn.C13.Checked
 /-! Line-protocol handler for the C13 model (core Lean only).
 
   gauss <rows> <cols> <e_1> … <e_{rows*cols}>      (row-major)
@@ -12,6 +13,10 @@ import Ptn.C13.Model
   par <k> <a_1> … <a_k> <b_1> … <b_k>               → are_parallel_row(a, b) as `<num>/<den>`
   rowadd <rows> <cols> <t> <s> <num>/<den> <e…>     → `fail` | `<zero:0|1> | <matrix>`
   coladd <rows> <cols> <t> <s> <num>/<den> <e…>     → same for `_col_add`
+  gaussc <rows> <len_1> … <len_rows> <e…>            the CHECKED model (`Checked.lean`) on a possibly ragged
+      matrix (row `i` has `len_i` entries; `rows` may be 0)
+      → `ok | <L> | <M'> | <R>` every matrix as `<#rows> [<len> <e…>] [<len> <e…>] …` (rows may differ in
+        length), → `zerodiv`, → `fuel`, → `index-error` (the Python code raises IndexError)
 -/
 namespace Ptn.C13
 
@@ -64,8 +69,40 @@ def outcomeStr (m n : Nat) : Outcome → String
       s!"ok {m} {p} {q} {n} | {matStr ratStr L} | {matStr entryStr A} | {matStr ratStr R}"
     else "ragged"
 
+/-- Split a flat token list into rows of the given lengths. -/
+def chunks {α : Type} : List Nat → List α → Option (List (List α))
+  | [], [] => some []
+  | [], _ :: _ => none
+  | n :: ns, l =>
+    if l.length < n then none
+    else (chunks ns (l.drop n)).map (l.take n :: ·)
+
+def rowStrR {α : Type} (f : α → String) (r : List α) : String :=
+  "[" ++ " ".intercalate (toString r.length :: r.map f) ++ "]"
+
+def matStrR {α : Type} (f : α → String) (X : List (List α)) : String :=
+  " ".intercalate (toString X.length :: X.map (rowStrR f))
+
+def outcomeStrC : OutcomeC → String
+  | .zeroDiv => "zerodiv"
+  | .fuelOut => "fuel"
+  | .indexError => "index-error"
+  | .ok L A R => s!"ok | {matStrR ratStr L} | {matStrR entryStr A} | {matStrR ratStr R}"
+
 def handle (args : List String) : String :=
   match args with
+  | "gaussc" :: r :: toks =>
+    match r.toNat? with
+    | some rows =>
+      if toks.length < rows then "bad-op"
+      else
+        match (toks.take rows).mapM String.toNat?, (toks.drop rows).mapM parseEntry with
+        | some lens, some es =>
+          match chunks lens es with
+          | some M => outcomeStrC (gaussianEliminationC M)
+          | none => "bad-op"
+        | _, _ => "bad-op"
+    | none => "bad-op"
   | "gauss" :: r :: c :: toks =>
     match r.toNat?, c.toNat? with
     | some rows, some cols =>
